@@ -262,7 +262,7 @@ pub fn cases(ctx: &Ctx) -> Vec<Case> {
     let mut r = Rng::new(ctx.seed ^ 0xC08);
     let classes = [K_STATUS, K_NEGSTART, K_RANDOM, K_WRONGSIZE, K_UNKNOWN_ADDR, K_FOREIGN_MAGIC, K_MUTATED, K_BOMB, K_MIXED];
     // ---- Running state, clean and lossy links, victim = node 0, forged sender = node 1
-    for i in 0..ctx.n(900, 40_000) {
+    for i in 0..ctx.n(2500, 80_000) {
         let mut rr = r.fork(i as u64);
         let mut s = base_running(&mut rr, 300);
         let class = classes[i % classes.len()];
@@ -284,7 +284,7 @@ pub fn cases(ctx: &Ctx) -> Vec<Case> {
         out.push(Case { id: format!("running-exhaustive-{slice}"), scn: s });
     }
     // ---- during the handshake (packets forged from scratch)
-    for i in 0..ctx.n(300, 12_000) {
+    for i in 0..ctx.n(800, 25_000) {
         let mut rr = r.fork(0x2000_0000 + i as u64);
         let mut s = base_running(&mut rr, 200);
         s.link = Link { drop: rr.pick(&[0.0, 0.2]), dup: 0.0, base_ms: rr.pick(&[10u64, 40]), jitter_ms: 0, outages: vec![], faults: vec![] };
@@ -293,7 +293,7 @@ pub fn cases(ctx: &Ctx) -> Vec<Case> {
         out.push(Case { id: format!("handshake-{}-{i}", CLASS_NAMES[class as usize]), scn: s });
     }
     // ---- after a disconnect: the dead peer's address keeps "sending" (also exact replays)
-    for i in 0..ctx.n(300, 12_000) {
+    for i in 0..ctx.n(800, 25_000) {
         let mut rr = r.fork(0x3000_0000 + i as u64);
         let mut s = gen_death2(&mut rr, 400);
         s.kill.as_mut().unwrap().at_ms = rr.range(1500, 2200);
@@ -304,7 +304,7 @@ pub fn cases(ctx: &Ctx) -> Vec<Case> {
         out.push(Case { id: format!("afterdisc-{}-{i}", CLASS_NAMES.get(class as usize).unwrap_or(&"mixed")), scn: s });
     }
     // ---- towards a spectator (victim = spectator, forged sender = its host)
-    for i in 0..ctx.n(300, 12_000) {
+    for i in 0..ctx.n(800, 25_000) {
         let mut rr = r.fork(0x4000_0000 + i as u64);
         let mut s = base_running(&mut rr, 300);
         s.link = Link::clean(rr.pick(&[0u64, 10]));
@@ -315,7 +315,7 @@ pub fn cases(ctx: &Ctx) -> Vec<Case> {
         out.push(Case { id: format!("tospectator-{}-{i}", CLASS_NAMES.get(class as usize).unwrap_or(&"mixed")), scn: s });
     }
     // ---- the real remote is silent: a flood of foreign packets must not move the timeout events
-    for i in 0..ctx.n(150, 6000) {
+    for i in 0..ctx.n(400, 12_000) {
         let mut rr = r.fork(0x5000_0000 + i as u64);
         let mut s = gen_death2(&mut rr, 400);
         s.link = Link::clean(rr.pick(&[0u64, 10]));
@@ -323,6 +323,109 @@ pub fn cases(ctx: &Ctx) -> Vec<Case> {
         s.inject = Some(Inject { victim: 0, from_addr: peer_addr(1), p: 1.0, after_ms: 1200, until_ms: 100_000, class, exhaustive_from: None, synthesize: false, replay_genuine: false });
         out.push(Case { id: format!("silentflood-{}-{i}", CLASS_NAMES[class as usize]), scn: s });
     }
+    // ---- the real UDP socket: garbage datagrams must be dropped by UdpNonBlockingSocket
+    for k in 0..ctx.n(6, 40) as u64 {
+        let mut s = Scn::base(ctx.seed.wrapping_mul(977).wrapping_add(k));
+        s.frames = 0;
+        out.push(Case { id: format!("udpsocket-garbage-{k}"), scn: s });
+    }
+    out
+}
+
+/// Garbage, truncated, bit-flipped and length-bomb datagrams sent over loopback to the library's
+/// own UdpNonBlockingSocket: receive_all_messages must neither panic nor allocate much, and must
+/// keep delivering well-formed messages.
+fn run_udp_garbage(c: &Case) -> Outcome {
+    use ggrs::NonBlockingSocket;
+    let mut out = Outcome::new(json!({"case": c.id, "what": "datagrams sent over loopback UDP to ggrs::UdpNonBlockingSocket: random bytes, truncated / bit-flipped serialised messages, vector-length bombs, oversize datagrams, interleaved with well-formed messages"}));
+    out.sig = hash_str(&c.id);
+    let mut r = Rng::new(c.scn.seed ^ 0x0D9);
+    let mut sock = None;
+    let mut port = 0u16;
+    for _ in 0..40 {
+        port = 20_000 + r.below(30_000) as u16;
+        if let Ok(s) = ggrs::UdpNonBlockingSocket::bind_to_port(port) {
+            sock = Some(s);
+            break;
+        }
+    }
+    let (Some(mut sock), Ok(tx)) = (sock, std::net::UdpSocket::bind("127.0.0.1:0")) else {
+        out.inconclusive("could not bind loopback UDP sockets");
+        return out;
+    };
+    let dest = format!("127.0.0.1:{port}");
+    let good = |r: &mut Rng| -> Vec<u8> {
+        let body = match r.below(5) {
+            0 => WBody::KeepAlive,
+            1 => WBody::SyncRequest { r: r.next() as u32 },
+            2 => WBody::InputAck { ack: r.below(1000) as i32 },
+            3 => WBody::QualityReport { adv: 3, ping: 1234 },
+            _ => WBody::Input { st: vec![WConn { disconnected: false, last_frame: 7 }; 2], disc: false, start: 5, ack: 4, bytes: (0..r.below(20)).map(|_| r.next() as u8).collect() },
+        };
+        bincode::serialize(&WMsg { magic: r.next() as u16, body }).unwrap()
+    };
+    let (mut sent_good, mut got, mut sent_bad) = (0u64, 0u64, 0u64);
+    for i in 0..3000u32 {
+        let dg: Vec<u8> = match r.below(7) {
+            0 => {
+                sent_good += 1;
+                good(&mut r)
+            }
+            1 => {
+                let l = r.below(120) as usize;
+                (0..l).map(|_| r.next() as u8).collect()
+            }
+            2 => {
+                let mut g = good(&mut r);
+                let k = r.below(g.len() as u64 + 1) as usize;
+                g.truncate(k);
+                g
+            }
+            3 => {
+                let mut g = good(&mut r);
+                if !g.is_empty() {
+                    let i = r.below(g.len() as u64) as usize;
+                    g[i] ^= 1 << r.below(8);
+                }
+                g
+            }
+            4 => {
+                // Input message whose vector length prefix claims 2^60 elements
+                let mut g = vec![0x34, 0x12, 2, 0, 0, 0];
+                g.extend_from_slice(&(1u64 << r.range(20, 60)).to_le_bytes());
+                g.extend((0..r.below(30)).map(|_| r.next() as u8));
+                g
+            }
+            5 => vec![0xFF; 4096],
+            _ => (0..5000).map(|_| r.next() as u8).collect(),
+        };
+        sent_bad += 1;
+        let _ = tx.send_to(&dg, &dest);
+        if i % 25 == 24 {
+            let (res, ast) = crate::alloc::region(true, || guarded(|| sock.receive_all_messages()));
+            match res {
+                Err(p) => {
+                    out.violate(Viol { panic: Some(p.clone()), ..v("UdpNonBlockingSocket::receive_all_messages panicked on a datagram", format!("{} at {}", p.msg, p.loc), 0, 0) });
+                    return out;
+                }
+                Ok(msgs) => got += msgs.len() as u64,
+            }
+            out.count("max_udp_receive_peak_live_bytes", ast.peak_live.max(0) as u64);
+            // serde pre-allocates at most 1 MiB for a vector whose length prefix lies: bounded
+            if crate::alloc::is_enabled() && ast.peak_live > (4 << 20) {
+                out.violate(v("receiving datagrams allocated more than 4 MiB", format!("peak live growth {} bytes, largest request {}", ast.peak_live, ast.largest), 0, 0));
+                return out;
+            }
+        }
+    }
+    out.count("udp_datagrams_sent", sent_bad);
+    out.count("udp_well_formed_sent", sent_good);
+    out.count("udp_messages_delivered", got);
+    if got == 0 {
+        out.inconclusive("no datagram came through the loopback interface");
+        return out;
+    }
+    out.nontrivial = true;
     out
 }
 
@@ -335,6 +438,9 @@ fn per_addr_events(n: &Node) -> Vec<(u64, Ev)> {
 }
 
 pub fn run_case(c: &Case) -> Outcome {
+    if c.id.starts_with("udpsocket-") {
+        return run_udp_garbage(c);
+    }
     let inj = c.scn.inject.clone().unwrap();
     let class = inj.class;
     let after_disc = c.id.starts_with("afterdisc") || c.id.starts_with("silentflood");
@@ -539,10 +645,10 @@ pub fn check(ctx: &Ctx) -> i32 {
     extra.insert("classes".into(), json!(CLASS_NAMES));
     let meta = Meta {
         level: "fault_enumeration",
-        rule: "forged packets are built by mutating a copy of the last genuine packet already delivered on the victim's link (so that ack and gossip fields are stale and idempotent) and are put on the wire at the victim's ticks: wrong number of connection statuses (0, n-1, n+1, n+1000), negative start frame, payloads that are random bytes / exhaustive byte strings of length <= 2 / structure-aware mutations of the genuine payload up to 4 KiB / run-length bombs / valid encodings of frames of the wrong size, any packet type from an unknown address, any packet type with a foreign magic. Payloads that the harness's own decoder labels as well-formed spoofs (some frame has exactly the expected size) are not injected (no authentication: outside the property). Protocol states: Running on clean and lossy links (2-3 peers, 1-2 players per peer, windows 0/1/2/8), during the handshake (forged from scratch), after the sender was dropped (incl. exact replays), towards a spectator, and a flood of foreign packets while the real remote is silent. Every campaign runs in a child process under the counting allocator. Verdict: no panic/abort/refused allocation, peak live growth per call within the codec bound; C01/C03/C06 oracles keep holding; against the same scenario without injection: classes rejected before processing must leave request traces, events (with timestamps, per address), errors and states identical; payload classes (which legitimately refresh a resend timer, i.e. shift packet timing) must leave lifecycle/desync events, connection state and progress to the frame target identical, with floods on live links ending 2.5 s after they started so that 'valid traffic continues to be processed afterwards' is judged after the flood; handshakes still complete. Non-trivial: at least one forged packet was delivered to the victim's session. Distinct: case + trace hash.".into(),
+        rule: "forged packets are built by mutating a copy of the last genuine packet already delivered on the victim's link (so that ack and gossip fields are stale and idempotent) and are put on the wire at the victim's ticks: wrong number of connection statuses (0, n-1, n+1, n+1000), negative start frame, payloads that are random bytes / exhaustive byte strings of length <= 2 / structure-aware mutations of the genuine payload up to 4 KiB / run-length bombs / valid encodings of frames of the wrong size, any packet type from an unknown address, any packet type with a foreign magic. Payloads that the harness's own decoder labels as well-formed spoofs (some frame has exactly the expected size) are not injected (no authentication: outside the property). Protocol states: Running on clean and lossy links (2-3 peers, 1-2 players per peer, windows 0/1/2/8), during the handshake (forged from scratch), after the sender was dropped (incl. exact replays), towards a spectator, and a flood of foreign packets while the real remote is silent; plus garbage/truncated/bit-flipped/length-bomb/oversize datagrams sent over loopback to the library's own UdpNonBlockingSocket (no panic, < 4 MiB allocated per receive call, well-formed messages still delivered). Every campaign runs in a child process under the counting allocator. Verdict: no panic/abort/refused allocation, peak live growth per call within the codec bound; C01/C03/C06 oracles keep holding; against the same scenario without injection: classes rejected before processing must leave request traces, events (with timestamps, per address), errors and states identical; payload classes (which legitimately refresh a resend timer, i.e. shift packet timing) must leave lifecycle/desync events, connection state and progress to the frame target identical, with floods on live links ending 2.5 s after they started so that 'valid traffic continues to be processed afterwards' is judged after the flood; handshakes still complete. Non-trivial: at least one forged packet was delivered to the victim's session. Distinct: case + trace hash.".into(),
         assumptions: {
             let mut a = std_assumptions();
-            a.push("UdpNonBlockingSocket itself (bincode-deserialise-or-drop) is not in the simulated path".into());
+            a.push("UdpNonBlockingSocket is not in the simulated path; it is exercised separately with garbage datagrams over loopback".into());
             a
         },
         floor_nontrivial: if ctx.quick() { 400 } else { 10_000 },
